@@ -185,6 +185,11 @@ def write_evidence(ctx, mod, n_viol, n_known):
 
 
 def main(argv=None):
+    import signal
+    try:
+        signal.signal(signal.SIGPIPE, signal.SIG_DFL)    # `./check ... | head` must not print a traceback
+    except (AttributeError, ValueError):
+        pass
     ap = argparse.ArgumentParser()
     ap.add_argument("prop")
     ap.add_argument("--tier", default=os.environ.get("VERIF_TIER", "quick"), choices=["quick", "thorough"])
